@@ -8,6 +8,7 @@ one and queues the other.
 """
 from __future__ import annotations
 
+import os
 import sys
 import time
 import traceback
@@ -37,6 +38,49 @@ def _site():
             return "%s:%d" % (fn.split("/torchphysics/", 1)[1], f.f_lineno)
         f = f.f_back
     return "harness"
+
+
+_WD = {"thread": None, "deadline": None, "ctx": None, "pid": None}
+_WD_LOCK = None
+
+
+def _wd_loop():
+    while True:
+        time.sleep(0.25)
+        with _WD_LOCK:
+            d, c = _WD["deadline"], _WD["ctx"]
+            if d is not None and c is not None and time.time() > d:
+                try:
+                    c.interrupt()
+                except Exception:
+                    pass
+                _WD["deadline"] = time.time() + 2.0  # keep nudging while the check is still running
+
+
+def guarded_check(solver, timeout_ms, *assumptions):
+    """solver.check with a hard wall-clock guard: z3's own timeout is not honoured inside some
+    non-linear procedures, so one watchdog thread per process interrupts the context -- only while
+    a check is in progress."""
+    global _WD_LOCK
+    import threading
+
+    if _WD["thread"] is None or _WD["pid"] != os.getpid():
+        _WD_LOCK = threading.Lock()
+        t = threading.Thread(target=_wd_loop, daemon=True)
+        _WD["thread"], _WD["pid"] = t, os.getpid()
+        _WD["deadline"] = _WD["ctx"] = None
+        t.start()
+    with _WD_LOCK:
+        _WD["ctx"] = solver.ctx
+        _WD["deadline"] = time.time() + timeout_ms / 1000.0 + 1.0
+    try:
+        return solver.check(*assumptions)
+    except z3.Z3Exception:
+        return z3.unknown
+    finally:
+        with _WD_LOCK:
+            _WD["deadline"] = None
+            _WD["ctx"] = None
 
 
 class Stats:
@@ -73,6 +117,7 @@ class PathCtx:
         self.unwind = unwind
         self.max_decisions = max_decisions
         self.solver = z3.Solver()
+        self.feas_timeout_ms = feas_timeout_ms
         self.solver.set("timeout", feas_timeout_ms)
         for ax in T.PI_AXIOMS:
             self.solver.add(ax)
@@ -84,6 +129,10 @@ class PathCtx:
         self._cand_model = None
         self.path_deadline = None
         self._tick = 0
+        import random as _random
+        self.rng = _random.Random(20260927)
+        self.particles = []
+        self.no_particles = False
 
     # ---- symbols -------------------------------------------------------
     def _new_name(self, name):
@@ -112,7 +161,9 @@ class PathCtx:
         self.axioms_weak.append(t if weak is None else weak)
         if weak is not None:
             self.has_weak = True
-        self.solver.add(t)
+        # the feasibility solver over-approximates (weaker axioms): an infeasible branch may be
+        # explored, never a feasible one lost; verdicts always use the hypotheses of the path
+        self.solver.add(t if weak is None else weak)
         if self.model is not None and self._model_says(t) is not True:
             self.model = None
         # ownership: the axiom defines the most recently created symbol generation it mentions
@@ -159,6 +210,7 @@ class PathCtx:
         self.solver.add(t)
         if self.model is not None and self._model_says(t) is not True:
             self.model = None
+        self.particles = [p for p in self.particles if self._peval(t, p) is True]
 
     def oblige(self, t, msg, where):
         self.obligations.append((t, msg, where, len(self.pc)))
@@ -166,7 +218,7 @@ class PathCtx:
     # ---- decisions -----------------------------------------------------
     def _feasible(self, lit):
         t0 = time.time()
-        r = self.solver.check(lit)
+        r = guarded_check(self.solver, self.feas_timeout_ms, lit)
         self.stats.feas_queries += 1
         self.stats.feas_time += time.time() - t0
         if r == z3.unknown:
@@ -178,6 +230,89 @@ class PathCtx:
             except z3.Z3Exception:
                 self._cand_model = None
         return r == z3.sat
+
+    # ---- concrete witnesses ("particles") -------------------------------
+    N_PART = 12
+
+    def _peval(self, t, p):
+        cache = p.get("__cache__")
+        if cache is None:
+            cache = p["__cache__"] = {}
+        try:
+            return T.numeval(t, p, self.defsym, self.rng, cache)
+        except T.Uncertain:
+            return None
+
+    def _consistent(self, p):
+        for t in self.assumptions:
+            if self._peval(t, p) is not True:
+                return False
+        for t in self.pc:
+            if self._peval(t, p) is not True:
+                return False
+        return True
+
+    def _replenish(self, tries=30):
+        if self.no_particles:
+            return
+        n = 0
+        while len(self.particles) < self.N_PART and n < tries:
+            n += 1
+            p = {}
+            if self._consistent(p):
+                self.particles.append(p)
+
+    def _hunt(self, cond, want, tries=60):
+        """look for a concrete witness of outcome `want` by mutating existing witnesses / fresh draws"""
+        base = list(self.particles)
+        for n in range(tries):
+            if base and n % 3:
+                src = base[self.rng.randrange(len(base))]
+                p = {}
+                ks = [k for k in src.keys() if k != "__cache__"]
+                if not ks:
+                    continue
+                redraw = set(k for k in ks if self.rng.random() < 0.3)
+                if not redraw:
+                    redraw = {ks[self.rng.randrange(len(ks))]}
+                for k in ks:
+                    if k not in redraw and k != "__cache__":
+                        p[k] = src[k]
+            else:
+                p = {}
+            if self._peval(cond, p) is want and self._consistent(p):
+                self.particles.append(p)
+                self.stats.hunted = getattr(self.stats, "hunted", 0) + 1
+                return True
+        return False
+
+    def _filter_particles(self, cond, out):
+        keep = []
+        for p in self.particles:
+            if self._peval(cond, p) is out:
+                keep.append(p)
+        self.particles = keep
+
+    def _particle_from_model(self, m):
+        if m is None:
+            return
+        p = {}
+        try:
+            for d in m.decls():
+                if d.arity() != 0:
+                    continue
+                name = d.name()
+                if name.startswith(("sqrt!", "quot!", "cos!", "sin!", "root", "floor!", "ceil!", "trunc!", "arccos!")):
+                    continue
+                v = m[d]
+                if z3.is_bool(v):
+                    p[name] = z3.is_true(v)
+                else:
+                    p[name] = T.model_float(m, d())
+        except Exception:
+            return
+        if self._consistent(p):
+            self.particles.append(p)
 
     def _model_says(self, cond):
         """truth value of cond under the cached model of the current hypotheses (None if no model)"""
@@ -206,17 +341,36 @@ class PathCtx:
         site = site or _site()
         n = self.site_count.get(site, 0) + 1
         self.site_count[site] = n
+        if len(self.particles) < 3:
+            self._replenish()
         i = len(self.decisions)
         if i < len(self.prefix):
             out = self.prefix[i]
+            self._filter_particles(cond, out)
         else:
             if len(self.decisions) >= self.max_decisions:
                 raise Unwound("decision bound %d at %s" % (self.max_decisions, site))
             ncond = z3.Not(cond)
-            says = self._model_says(cond)
             self._cand_model = None
             mt = mf = None
-            if says is True:
+            pv = [self._peval(cond, p) for p in self.particles]
+            has_t, has_f = any(v is True for v in pv), any(v is False for v in pv)
+            says = None if (has_t or has_f) else self._model_says(cond)
+            if (has_t or has_f) and not (has_t and has_f):
+                if self._hunt(cond, not has_t):
+                    has_t = has_f = True
+                    pv = None
+            if has_t or has_f:
+                # concrete witnesses settle feasibility of the outcomes they exhibit
+                self.stats.feas_by_witness = getattr(self.stats, "feas_by_witness", 0) + int(has_t) + int(has_f)
+                ft = True if has_t else self._feasible(cond)
+                if not has_t and ft and self._cand_model:
+                    mt = self._cand_model[1]
+                self._cand_model = None
+                ff = True if has_f else self._feasible(ncond)
+                if not has_f and ff and self._cand_model:
+                    mf = self._cand_model[1]
+            elif says is True:
                 ft, mt = True, self.model
                 ff = self._feasible(ncond)
                 mf = self._cand_model[1] if (ff and self._cand_model) else None
@@ -245,6 +399,10 @@ class PathCtx:
             else:
                 raise Infeasible("path condition infeasible at %s" % site)
             self.model = mt if out else mf
+            self._filter_particles(cond, out)
+            if not self.particles:
+                self._particle_from_model(self.model)
+                self._replenish(20)
         self.decisions.append(out)
         lit = cond if out else z3.Not(cond)
         self.pc.append(lit)
